@@ -1,10 +1,14 @@
 ------------------------ MODULE Gen_HandlerContract ------------------------
 (* Enumerator / exhaustive check for C27 *)
 EXTENDS HandlerContract
+CONSTANT Defect   \* "none", or "per_item": the code as found runs the script once per matching filter item (a config that
+                  \* EXPECTS the monitor to fire, so that the recorded finding is not vacuous)
 VARIABLES inp, ph, out
 vars == <<inp, ph, out>>
 Init == inp \in Inputs /\ ph = "in" /\ out = 0
-Eval == /\ ph = "in" /\ ph' = "out" /\ UNCHANGED inp /\ out' = Expected(inp)
+PerItem(i) == [count |-> IF i.spec = <<>> THEN 1 ELSE Cardinality({ k \in DOMAIN i.spec : ItemMatch(i.spec[k], i.ev) })]
+Eval == /\ ph = "in" /\ ph' = "out" /\ UNCHANGED inp
+        /\ out' = IF Defect = "per_item" /\ inp.ep = "filter" THEN PerItem(inp) ELSE Expected(inp)
 Next == Eval
 C27 == ph = "out" => Clauses(inp, out) = {}
 \* laws of the definition: escaping removes every raw tab and newline; the payload rule ends non-empty input with a newline
